@@ -500,6 +500,47 @@ theorem case_bin (op : BinOp) (l r : Ast) (hwl : WFparse l) (hwr : WFparse r)
     simpa [norm] using this
 
 
+/-- the inside of a printed binary node (between its parentheses), read by parse_expr: used by `case_bin`'s twin below and by the
+    statement level (`for (k in a)` is printed without parentheses of its own around the `in` node's) -/
+theorem bin_inner (op : BinOp) (l r : Ast) (hwl : WFparse l) (hwr : WFparse r)
+    (hnf : ¬ (foldable op = true ∧ (norm l).isNum = true ∧ (norm r).isNum = true)) (hin : op = .IN → r.isVar = true)
+    (ol : OStmt l) (or : OStmt r) (m : Nat) (rest : List Tok) (hll : (opnd l).length ≤ m + 1) (hlr : (opnd r).length ≤ m) :
+    parseLv ladder (m + 1) ladder ((opnd l ++ binTok op :: opnd r) ++ tRP :: rest) = .ok (.bin op (norm l) (norm r), tRP :: rest) := by
+  obtain ⟨tl, rl, el, hkl⟩ := opnd_head l hwl
+  obtain ⟨tr, rr, er, hkr⟩ := opnd_head r hwr
+  have hb := binOK_all op
+  unfold binOK at hb
+  split at hb
+  · simp at hb
+  · next pre L bp hs =>
+    obtain ⟨hsplit, hh⟩ := splitAtOp_eq _ _ _ _ _ _ hs
+    simp only [Bool.and_eq_true, List.all_eq_true] at hb
+    obtain ⟨⟨⟨hb1, hb2⟩, hb3⟩, hb4⟩ := hb
+    have e : ladder = pre ++ L :: (bp ++ [.incLv, .primLv]) := by rw [ladder_split, hsplit]; simp
+    have hE : parseLv ladder (m + 1) ladder ((opnd l ++ binTok op :: opnd r) ++ tRP :: rest)
+        = .ok (.bin op (norm l) (norm r), tRP :: rest) := by
+      have hlad : parseLv ladder (m + 1) ladder ((opnd l ++ binTok op :: opnd r) ++ tRP :: rest)
+          = parseLv ladder (m + 1) (pre ++ L :: (bp ++ [.incLv, .primLv])) ((opnd l ++ binTok op :: opnd r) ++ tRP :: rest) := by
+        rw [← e]
+      rw [hlad]
+      simp only [List.cons_append, List.append_assoc, List.nil_append]
+      apply climb ladder (m + 1) pre
+      · apply binLevel m L (bp ++ [Level.incLv, Level.primLv]) op (binTok op) tRP (opnd l) (opnd r) rest (norm l) (norm r) hh
+        · exact ol (m + 1) bp _ hll (by rw [k1_cons, k2_cons, er, List.cons_append, k1_cons]; exact hb2 tr.k hkr)
+        · have e2 : rightLevels L bp ++ [Level.incLv, Level.primLv] = rightLevels L (bp ++ [Level.incLv, Level.primLv]) := by
+            simp only [rightLevels]; split <;> rfl
+          rw [← e2]
+          exact or m (rightLevels L bp) _ hlr (by
+            rw [k1_cons, k2_cons, tRP_k, opOK_indep _ _ _ none (by decide) (by decide)]; exact hb3)
+        · rw [er, List.cons_append, k1_cons]; intro h; exact start_not_newline _ hkr (by simpa using h)
+        · exact mkBin_nofold op _ _ hnf
+        · intro h; rw [norm_isVar]; exact hin h
+        · rw [tRP_k, noContK_indep _ _ _ none (by decide) (by decide)]; exact hb4
+      · rw [el, List.cons_append, k1_cons, k1_cons, k2_cons, tRP_k, passK_indep _ _ _ _ none (by decide) (by decide)]
+        exact hb1 tl.k hkl
+    exact hE
+
+
 /-! ### comma lists -/
 
 theorem printLT_head (l : AstL) (hw : WFparseL l) (hne : l ≠ .nil) : ∃ t r, printLT l = t :: r ∧ t.k ∈ startKs := by
